@@ -591,6 +591,8 @@ def generate(repo, template, mode=None):
             types.append(r)
             continue
         r = extract_fn(repo, blk, meta, mode)
+        for a in blk.attrs:
+            em.emit_lines([(a, dict(kind='tmpl', tline=blk.tline))])
         em.emit_lines([(r['sig'], dict(kind='sig', fn=r['name'], file=r['file'], line=r['line']))])
         for ln, tl in blk.spec:
             em.emit_lines([(ln, dict(kind='spec', fn=r['name'], tline=tl, text=ln.strip()))])
